@@ -5,6 +5,20 @@ HERE = os.path.dirname(os.path.dirname(os.path.abspath(__file__)))
 ids = [json.loads(l)["id"] for l in open(os.path.join(HERE, "properties.jsonl"))]
 
 CLAIMS = {
+ "C05": dict(
+   text="The real addListener / removeListener / raiseEvent / raiseEventNoErrors / CallProxy are proved against an abstract "
+        "view (per event type the sequence of (priority, handler, once, id)) for handler lists of 0..3 entries with symbolic "
+        "priorities, one-shot flags and handler return values: subscribing inserts in descending priority and, among equals, "
+        "subscription order; undeclared types (by class, by instance, by name) are rejected; every unsubscribe form removes "
+        "exactly that entry and never mutates a list a delivery may be walking; delivery invokes exactly the handlers "
+        "subscribed when the event was raised, once each, in order, up to the first halting return value (all eight shapes of "
+        "the return protocol), also when handlers re-enter subscribe / unsubscribe on the source (effect envelope on opaque "
+        "handlers); one-shot and self-removing handlers are gone afterwards, the rest stay in order; error suppression "
+        "swallows every handler exception except ReventError (known finding); a weak subscription is dropped, and never "
+        "invoked again, once the collector's callback runs.",
+   note="list length <= 3 (reported as bounded symbolic units); weakref/GC semantics assumed (the callback is invoked "
+        "explicitly); autoBindEvents name wiring and re-entrant raise from inside a handler not decided.",
+   ref="7/C05"),
  "C12": dict(
    text="Every header-rewrite action (set dl src/dst, VLAN vid/pcp incl. tag push, strip VLAN, nw src/dst/tos, tp src/dst) is "
         "proved to change exactly the named field on 7 header-chain shapes (plain/VLAN, IPv4 TCP/UDP/ICMP, ARP, other) for all "
